@@ -1,19 +1,20 @@
-//@ unit dom_lookupns
+//@ unit dom_lookupprefix
 //@ props C06 C01
 //@ kind W
 //@ def quick NEL=3 NATTR=2
 //@ def thorough NEL=3 NATTR=2
 //@ cbmc all --unwind 5 --unwindset DOMNodeImpl_getElementAncestor.0:4,DOMNodeImpl_lookupNamespaceURI.0:3,DOMNodeImpl_lookupPrefix2.0:3,ND_getAttributeNodeNS.0:3,spec_lookupNamespaceURI.0:3,spec_lookupNamespaceURI.1:4,spec_lookupPrefix.0:3,spec_lookupPrefix.1:4,spec_isDefaultNamespace.0:3,spec_isDefaultNamespace.1:4,run_x.0:9,run_x.1:12 --unwinding-assertions
 //@ entry h_lookup
-//@ note algorithm under test: DOMNodeImpl::lookupNamespaceURI (the other two are extracted as well: they call each other)
+//@ note algorithm under test: DOMNodeImpl::lookupPrefix (both overloads) (the other two are extracted as well: they call each other)
 //@ note W: complete for harness trees document -> chain of <= NEL elements with <= NATTR attributes each, every namespace / prefix / local name / value over 7 string ids, started at the document, any element, any attribute, or a further node of any other type hung under the document, an element, an entity reference below the root element (an ancestor that is no element is skipped), an attribute or nothing; every call is made with concrete links and node types (only names, namespaces, values, depth and attribute counts are symbolic) so that the node-type switches are decided during symbolic execution; recursion (ancestor->lookupXxx) and the attribute loops fully unwound
 //@ note stubs (contracts/dom_tree.inc): getParentNode, getNodeType, getNamespaceURI, getPrefix, getLocalName, getNodeName, getNodeValue, hasAttributes, getAttributes/getLength/item, getDocumentElement, getAttributeNodeNS are accessors of the harness tree; strings are ids (equal iff same id; null and "" equal for XMLString::equals); getContainingNode() is the node itself, fOwnerNode its owner field; the virtual lookupXxx of every node class forwards to DOMNodeImpl (checked by reading dom/impl/*.cpp), so virtual calls become calls of the extracted functions
 //@ note assumptions on the tree (what DOM Level 2 createElementNS / setAttributeNS guarantee): namespace ids are null or non-empty; prefixes and local names are never ""; an attribute in the xmlns namespace is either `xmlns` (no prefix, local name xmlns) or `xmlns:p` (prefix xmlns, local name p not xmlns); attributes of one element have distinct (namespace, local name); xmlns:p="" (prefix un-declaration, illegal in Namespaces 1.0) does not occur
+//@ note lookupPrefix only: the starts at an attribute or at the further node check the DISPATCH (which element the question is handed to, argument and result passed through unchanged) with the onward call recorded instead of executed; the B.2 answer itself is proved for every start at the document and at an element with the real recursion (see contracts/dom_lookup_body.inc)
 //@ note spec: DOM Level 3 Core, Appendix B.2 (lookupNamespacePrefix), B.3 (isDefaultNamespace), B.4 (lookupNamespaceURI) written as loops over the chain of ancestor elements
 #define VERIF_DEFINE_GHOSTS
 #include "verif_prelude.h"
 //@ enum src/xercesc/dom/DOMNode.hpp NodeType DOMNode_ scope=DOMNode
 //@ include dom_tree.inc
-#define WHICH 0
+#define WHICH 1
 //@ include dom_lookup_body.inc
 
